@@ -90,4 +90,44 @@ MCView == <<reg, wpc, pend, last, clock - loadAt, pubSince, nloads, hs, cur, spi
 GenWNext == /\ WatcherNext /\ UNCHANGED set
             /\ IF nloads' = MaxLoads /\ wpc' = "load" THEN PrintT(ToJson([hist |-> hist'])) ELSE TRUE
 GenWSpec == MCInit /\ [][GenWNext]_<<vars, set>>
+
+\* ---- watcher histories for the REAL sources (path / http): the contents are concrete
+\* certificate sets, so that after every step the certificate a client is presented can be
+\* prescribed: Select(set in the register, name, strict)  (RegIsLastGood, BadKeepsGood,
+\* TakesEffect say which set is in the register).
+\* A certificate of a source carries, besides its names, the file it lives in: file stem,
+\* layout ("pair": <stem>-cert.pem + <stem>-key.pem, "combined": <stem>.pem) and which minted
+\* key pair it is.  Alphabetical file order = order of the set (documentation).
+SC(cn, sans, file, layout, mint) == [cn |-> cn, sans |-> sans, file |-> file, layout |-> layout, mint |-> mint]
+SrcA == << SC(<<"a", "com">>, <<>>, "1", "pair", "A1"),
+           SC(<<"b", "a", "com">>, <<>>, "2", "combined", "A2"),
+           SC(<<>>, << <<"*", "a", "com">> >>, "3", "pair", "A3"),
+           SC(<<"x", "com">>, <<>>, "9", "pair", "A9") >>
+\* A with certificate 2 deleted on purpose: b.a.com is now covered by the wildcard
+SrcAs == << SrcA[1], SrcA[3], SrcA[4] >>
+\* renewed certificates, other order, other owner of the names
+SrcB == << SC(<<"x", "com">>, <<>>, "1", "pair", "B1"),
+           SC(<<>>, << <<"*", "com">> >>, "2", "combined", "B2"),
+           SC(<<"a", "com">>, <<>>, "3", "pair", "B3"),
+           SC(<<"b", "a", "com">>, <<>>, "9", "pair", "B9") >>
+SrcSetOf(c) == CASE c = "A" -> SrcA [] c = "As" -> SrcAs [] c = "B" -> SrcB [] OTHER -> <<>>
+SrcSNISeq == << <<>>, <<"a", "com">>, <<"A", "COM", "">>, <<"b", "a", "com">>, <<"c", "a", "com">>,
+                <<"x", "com">>, <<"q", "net">> >>
+
+Max(S) == CHOOSE x \in S : \A y \in S : y <= x
+RegAfter(h, i) == LET P == {j \in 1..i : h[j].pub # None} IN IF P = {} THEN None ELSE h[Max(P)].pub
+SrcCertJson(c) == [cn |-> Dot(c.cn), sans |-> [i \in DOMAIN c.sans |-> Dot(c.sans[i])],
+                   file |-> c.file, layout |-> c.layout, mint |-> c.mint]
+SrcSetJson(s) == [i \in DOMAIN s |-> SrcCertJson(s[i])]
+SrcStepJson(h, i) ==
+    LET r == RegAfter(h, i) IN
+    [kind |-> h[i].kind, content |-> h[i].content, pub |-> h[i].pub, at |-> h[i].at, reg |-> r,
+     q |-> [k \in DOMAIN SrcSNISeq |-> [sni |-> SrcSNISeq[k],
+                                         lax |-> Select(SrcSetOf(r), SrcSNISeq[k], FALSE),
+                                         strict |-> Select(SrcSetOf(r), SrcSNISeq[k], TRUE)]]]
+SrcHistJson(h) == [sets |-> [c \in Good |-> SrcSetJson(SrcSetOf(c))],
+                   hist |-> [i \in DOMAIN h |-> SrcStepJson(h, i)]]
+GenSNext == /\ WatcherNext /\ UNCHANGED set
+            /\ IF nloads' = MaxLoads /\ wpc' = "load" THEN PrintT(ToJson(SrcHistJson(hist'))) ELSE TRUE
+GenSSpec == MCInit /\ [][GenSNext]_<<vars, set>>
 =============================================================================
